@@ -303,7 +303,7 @@ def run_shard(d):
     k = d["k"]
     if k == "late":
         # timecodes beyond the first hour (minute / hour carries of the written timecode)
-        for base in (3590000000, 3600000000, 3695000000, 7261000000, 35999000000, 86300000000):
+        for base in (3590000000, 3600000000, 3695000000, 7261000000, 35999000000, 86300000000, 86395000000, 90061000000, 176400000000, 356400000000):
             for a in REP[:4]:
                 texts = [[make_line(*a)], [make_line(*REP[1], salt=3)]]
                 v, out = evaluate(texts, "sparse", "late", base)
